@@ -1,10 +1,14 @@
 """Loading and pretty-printing of the fact files produced by extractor/ (rivia-facts)."""
-import json, os, sys
+import json, os, re, sys
 
 class Facts:
     def __init__(self, path):
         with open(path) as f:
-            self.d = json.load(f)
+            text = f.read()
+        import renames
+        m = re.search(r'"crate"\s*:\s*"([^"]*)"', text[:400])
+        text, self.renames = renames.normalise(text, m.group(1) if m else '')
+        self.d = json.loads(text)
         self.crate = self.d['crate']
         self.bodies = {b['name']: b for b in self.d['bodies']}
         self.adts = {a['path']: a for a in self.d['adts']}
